@@ -219,6 +219,15 @@ def universe(cg, profile="std", level_nts=(), needles=None, types=None):
         g = rename(g, {"a": "c"})  # one name, one type per formula (ISLa resolves variables by name)
         F.append(("and", f, g))
         F.append(("or", f, ("not", g)))
+    # --- (negated) count on the constant, alone and next to a quantifier that forces expansion
+    for nd in needles[:2]:
+        for kk in ("1", "2", "3"):
+            c = ("count", "start", nd, ("s", kk))
+            F.append(c)
+            F.append(("not", c))
+            T0 = types[-1]
+            F.append(("and", q("forall", T0, "a", None, "start", ("smt", [">=", ["str.len", ["v", "a"]], ["i", 1]])), ("not", c)))
+            F.append(("and", q("forall", T0, "a", None, "start", ("smt", [">=", ["str.len", ["v", "a"]], ["i", 1]])), c))
     # --- numeric quantifiers with count
     for T in types[: (4 if full else 2)]:
         for nd in needles[:2]:
